@@ -57,6 +57,9 @@ class Registry:
         self.constructors = {}  # class / external name -> hook(ex, args, kwargs)
         self.path_init = []     # hooks run at the start of every path
         self.opaque_call_hook = None
+        self.func_hooks = {}    # fid -> hook(ex, args, kwargs): assumed model of a repo function (e.g. thread-local singleton access)
+        self.record_methods = {}  # (record name, method) -> hook(ex, recv, args, kwargs): functional model of an immutable class (assumed)
+        self.obj_method_hooks = {}  # method name -> hook(ex, recv, args, kwargs) for opaque objects (assumed behaviour with ghost effects)
         self.opaque_classes = {}  # class name -> module: classes whose __init__ only stores its parameters (checked per run)
 
     # --- declaration helpers
